@@ -27,6 +27,12 @@ CHECKS = {
     "C07": dict(level="translation_validation", ref="5 (C07), 4.3",
                 technique="trace validation of complete real stepping runs against TheoSem.tla line events (TLC, TheoSemTrace.tla)",
                 text="For generated one-statement-per-line sources (several files, sugar, calls, loops, jumps) every stop of the real stepping run is an event that TLC must explain as TheoSem's current line event (file and line) with the reference value of every user variable of every live activation; a missing, extra or misplaced stop or a wrong value anywhere in the run rejects the trace."),
+    "C03": dict(level="model_checking", ref="5 (C03), 4.2",
+                technique="TLC model checking of TheoVMAbs.tla on the real compiler output (static predicate StaticOK + complete graph of control paths with data abstracted) + I->S validation of instruction-level runs of the ASan/UBSan build against TheoVM's guarded actions",
+                text="For every accepted source of a corpus of hand-designed unusual declarations (OUT equal to a parameter, no parameters, no body variables, redefinitions with other arities and frame sizes, repeated parameter names whenever the front end accepts them) and of generated programs, TLC evaluates StaticOK over the instruction array and AbsSafe/AbsDepth in every state of the abstract machine that takes both branches of every conditional jump, i.e. on every control path. A sample is run instruction by instruction on the sanitizer build and every step must be explainable by a guarded TheoVM action (NoStuck)."),
+    "C16": dict(level="model_checking", ref="5 (C16), 4.3",
+                technique="TLC model checking of TheoSem.tla under weak fairness (<>Done, LoopCount, DepthBound, CallsGoDown) on generated WHILE/GOTO-free ASTs + trace validation of the real runs of the same sources; depth bound on every real run",
+                text="Accept side: TheoSem's termination, loop-count and depth invariants are model-checked on the ASTs of generated LOOP-only sources (bodies assign to their bounds, nested loops sharing lines, loops from macro bodies); the real compiler+VM must then produce exactly the reference line events and halt (TheoSemTrace), and the activation depth of every real run is bounded by definitions+1. Reject side (self/forward/mutual references across files and redefinitions) is exercised through C04's static-rule skeletons once TheoParse is in place; until then only the accept side is claimed here."),
 }
 
 NOT_YET = "check not built yet in this session (construction order in DESIGN.md section 10); will be claimed when its check exists"
